@@ -1,5 +1,5 @@
 CONSTANTS
-  Threads = {"main", "p2", "clk", "tts0", "w0"}
+  Threads = {"main", "p2", "tts0", "w0"}
   Cfg <- Cfg_two
   Prog <- Prog_two
   WorkerSet = {"w0"}
